@@ -55,6 +55,9 @@ V4 == Val(<<"g">>, <<5>>, {})
 StartsQuick    == {<<V1>>, <<V2>>, <<V1, V2>>}
 StartsThorough == {<<V1>>, <<V2>>, <<V3>>, <<V4>>, <<V1, V2>>, <<V3, V2>>, <<V1, V1>>}
 StartsDeep     == {<<V1>>}
+(* the empty sequence as receiver, argument and source (Join with nothing to append, copies of nothing) *)
+StartsEmpty    == {<<V2, Nil>>, <<Nil>>, <<Nil, V4>>}
+NewValsEmpty   == {Nil}
 NewValsQuick == {V2}
 NewValsThorough == {V2, V4}
 
@@ -193,7 +196,7 @@ Ops(lv, vv) ==
   \cup (IF has("rc") /\ r # 0 THEN {[op |-> "rc", o |-> o, r |-> r, inplace |-> 0] : o \in lv} ELSE {})
   \cup (IF has("setseq") THEN {[op |-> "setseq", o |-> o, s |-> SetSeqVal(len(o))] : o \in lv} ELSE {})
   \cup (IF has("setqual") THEN {[op |-> "setqual", o |-> o, q |-> SetQualVal(len(o))] : o \in lv} ELSE {})
-  \cup (IF has("mutate") THEN {[op |-> "mutate", o |-> o, i |-> 1, x |-> "b", qx |-> 7] : o \in lv} ELSE {})
+  \cup (IF has("mutate") THEN {[op |-> "mutate", o |-> o, i |-> 1, x |-> "b", qx |-> 7] : o \in {x \in lv : len(x) >= 1}} ELSE {})
   \cup (IF has("recycle") THEN {[op |-> "recycle", o |-> o] : o \in lv} ELSE {})
   \cup (IF has("join")
           THEN {[op |-> "join", o |-> x[1], p |-> x[2], r |-> 0, inplace |-> 1] :
